@@ -161,7 +161,7 @@ PROPS = {
             'PARTIAL: decode fidelity, witness stripping, hash pre-images, count == length, row emission (one row per item, in order, to the right file; totals == rows written) are decided by Verus; the CSV TEXT of one row (as_csv: format!/Display of integers and hashes, arr_to_hex fold) is an uninterpreted function of the item in unit csvdump -- outside both verifiers, replayed by lane N only',
             'BufWriter<File>::write_all appends its whole buffer on Ok (ghost log shim in unit csvdump); flushing/renaming in on_complete is not under contract (lane N reads the renamed files)',
             'std::io::Read::read_exact and byteorder read_u8/u16/u32/u64::<LittleEndian> consume exactly their bytes (shim trait Read in unit reader; LE decoders Kani-validated)',
-            'read_txs / read_merkle_branch (`(0..n).map(..).collect()`): assumed in Verus, bounded Kani harness on the real code',
+            'read_txs / read_merkle_branch: `(0..n).map(|_| E).collect()` is read as the loop it denotes (idiom I28: push E? n times, first Err returned) and proved with an inductive invariant; additionally a bounded Kani harness on the real code',
             'rayon into_par_iter().map().collect() preserves order (Block::new, EvaluatedTx::new)',
             'sha256d primitive (uninterpreted)',
         ],
@@ -172,7 +172,7 @@ PROPS = {
         'kani_quick': ['types_coin_parameter_table'],
         'kani_thorough': [],
         'trusted': [
-            'read_merkle_branch consumes count || hashes || mask (assumed in Verus; bounded Kani harness on the real code)',
+            'read_merkle_branch consumes count || hashes || mask: proved in unit reader through idiom I28 (`(0..n).map(|_| self.read_256hash()).collect()` == the loop it denotes); bounded Kani harness on the real code as a cross-check',
             'per-coin aux_pow_activation_version table (namecoin 0x10101, dogecoin 0x620102, others None): lane K table check',
         ],
     },
